@@ -99,10 +99,21 @@ class TlcResult:
     def tuples(self, tag):
         """Lines printed by PrintT(<<"TAG", ...>>) parsed into python lists."""
         res = []
-        pref = '<<"%s"' % tag
-        for line in self.out.splitlines():
-            if line.startswith(pref):
-                res.append(parse_tla_tuple(line))
+        lines = self.out.splitlines()
+        i = 0
+        pat = re.compile(r'^<<\s*"%s"' % re.escape(tag))
+        while i < len(lines):
+            if pat.match(lines[i]):
+                buf = lines[i]
+                # TLC pretty-prints long values over several lines: accumulate until << >> balance
+                while buf.count("<<") > buf.count(">>") and i + 1 < len(lines):
+                    i += 1
+                    buf += " " + lines[i].strip()
+                try:
+                    res.append(parse_tla_tuple(buf))
+                except Exception:
+                    res.append([tag, buf])
+            i += 1
         return res
 
     def json_lines(self, tag):
